@@ -306,7 +306,8 @@ pub fn run(args: &Args) -> SubResult {
     {
         use std::os::unix::ffi::OsStringExt;
         let bad = std::ffi::OsString::from_vec(vec![b'n', 0xff, b'.', b'x']);
-        let weird: Vec<PathBuf> = vec![base.join("outside.x"), PathBuf::from("relative/p.x"), PathBuf::from("/"), PathBuf::new(), r1.join(&bad), r1.join("d").join(&bad), base.clone(), r1.join("..").join("outside.x")];
+        let bad_ext = std::ffi::OsString::from_vec(vec![b'a', b'.', 0xff]);
+        let weird: Vec<PathBuf> = vec![r1.join(&bad_ext), r1.join("d").join(&bad_ext), base.join("outside.x"), PathBuf::from("relative/p.x"), PathBuf::from("/"), PathBuf::new(), r1.join(&bad), r1.join("d").join(&bad), base.clone(), r1.join("..").join("outside.x")];
         for p in weird {
             for c in &cs {
                 let (tx, rx) = event_channel();
